@@ -247,6 +247,91 @@ func (w *whWorld) step(op whOp, enc *json.Encoder) error {
 	return enc.Encode(ev)
 }
 
+// webhookStressMain: drive webhook-stress <seconds>. Valid subscriptions from many keys and notifications for all of
+// them overlap on one real service behind the real handler; the process must survive (an unsynchronised table dies with
+// "fatal error: concurrent map ..."), and afterwards every address must be notified at the endpoint it subscribed last.
+func webhookStressMain(args []string) {
+	secs := 2
+	if len(args) > 0 {
+		fmt.Sscanf(args[0], "%d", &secs)
+	}
+	b := &whBehaviour{Wallets: []string{}, Urls: []string{"u1", "u2"}}
+	for i := 0; i < 16; i++ {
+		b.Wallets = append(b.Wallets, fmt.Sprintf("w%d", i))
+	}
+	w, err := newWhWorld(b)
+	if err != nil {
+		fatal("world: %v", err)
+	}
+	stop := make(chan struct{})
+	var wg sync.WaitGroup
+	var mu sync.Mutex
+	subs, posts, refused := 0, 0, 0
+	lastURL := map[string]string{}
+	for i, n := range b.Wallets {
+		wg.Add(1)
+		go func(i int, n string) {
+			defer wg.Done()
+			k := 0
+			for {
+				select {
+				case <-stop:
+					return
+				default:
+				}
+				u := b.Urls[(i+k)%2]
+				_, err := w.api.Webhooks(context.Background(), w.request(whOp{W: n, U: u, By: n, Shape: "ok"}))
+				mu.Lock()
+				if err != nil {
+					refused++
+				} else {
+					subs++
+					lastURL[n] = u
+				}
+				mu.Unlock()
+				k++
+			}
+		}(i, n)
+	}
+	addrs := []string{}
+	for _, n := range b.Wallets {
+		addrs = append(addrs, w.wl[n].Address())
+	}
+	for i := 0; i < 4; i++ {
+		wg.Add(1)
+		go func() {
+			defer wg.Done()
+			for {
+				select {
+				case <-stop:
+					return
+				default:
+				}
+				w.svc.PostWebhookNewTransaction(addrs, whNodeURL)
+				mu.Lock()
+				posts++
+				mu.Unlock()
+			}
+		}()
+	}
+	time.Sleep(time.Duration(secs) * time.Second)
+	close(stop)
+	wg.Wait()
+	seen := w.seen()
+	wrong := 0
+	for _, n := range b.Wallets {
+		if seen[n] != lastURL[n] {
+			wrong++
+		}
+	}
+	w.close()
+	fmt.Printf("{\"subscriptions\":%d,\"refused\":%d,\"notifications\":%d,\"wrong_endpoint\":%d}\n", subs, refused, posts, wrong)
+	if refused > 0 || wrong > 0 {
+		os.Exit(3)
+	}
+	os.Exit(0)
+}
+
 // webhookMain: drive webhook <behaviours.ndjson> <trace.ndjson>
 func webhookMain(args []string) {
 	if len(args) != 2 {
